@@ -203,6 +203,21 @@ func c17Run(ctx *core.Ctx, idx int, dotu bool, steps int) core.Result {
 	}
 	rw := &rawc{c: rc}
 	mtimes := map[string]bool{}
+	// touched: the file's mtime becomes "now" on both sides (two different instants): it is no longer a set value,
+	// under any of its names
+	touched := func(f string) {
+		fi, err := os.Stat(filepath.Join(twin, f))
+		if err != nil {
+			delete(mtimes, f)
+			return
+		}
+		for k := range mtimes {
+			if ki, err := os.Stat(filepath.Join(twin, k)); err != nil || os.SameFile(fi, ki) {
+				delete(mtimes, k)
+			}
+		}
+		delete(mtimes, f)
+	}
 	var trace []string
 	fail := func(sig, what string) {
 		tr := trace
@@ -360,6 +375,7 @@ func c17Run(ctx *core.Ctx, idx int, dotu bool, steps int) core.Result {
 			}
 			op, argc = "write", fmt.Sprintf("mode%d", mode)
 			mayFail = false
+			touched(f)
 			if !walk(fid, f) {
 				continue
 			}
@@ -450,7 +466,18 @@ func c17Run(ctx *core.Ctx, idx int, dotu bool, steps int) core.Result {
 			perr = syscall.Rename(filepath.Join(twin, p), filepath.Join(twin, destRel))
 			if perr == nil {
 				created = destRel
+				// the name carries the source's mtime along; what was at the destination is gone
+				was := mtimes[p]
 				delete(mtimes, p)
+				delete(mtimes, destRel)
+				if was {
+					mtimes[destRel] = true
+				}
+				for k := range mtimes {
+					if strings.HasPrefix(k, p+"/") || strings.HasPrefix(k, destRel+"/") {
+						delete(mtimes, k) // paths below a renamed directory: forgotten rather than tracked
+					}
+				}
 			}
 		case 10: // truncate
 			f, ok := pick("file")
@@ -464,6 +491,7 @@ func c17Run(ctx *core.Ctx, idx int, dotu bool, steps int) core.Result {
 			}
 			n := []int{0, size / 2, size, size + 1, size + 5000, 1}[r.Intn(6)]
 			op, argc = "truncate", map[bool]string{true: "shrink", false: "extend"}[n <= size]
+			touched(f)
 			if !walk(fid, f) {
 				continue
 			}
